@@ -111,6 +111,11 @@ def enum_units(tier, seed):
               {"k": "include", "f": "part1.s", "b": [lab("lb_inc"), db(11), {"k": "scope", "n": "sc_t", "b": [lab("lb_inc_scope"), db(12)]}]},
               {"k": "org", "a": org + 0x10000}, lab("sc_m"), db(13), lab("_lb_under"), db(14), {"k": "block", "b": [lab("__lb_two"), db(15)]}, lab("lb_trailing_"), db(16)]
         cases.append({"rom": rom, "files": {}, "defines": {}, "define_forms": [], "sub": rom == "low", "ir": ir})
+    # code before any *= (the program starts where the assembler starts): whatever the in-memory API makes of it, the files say the same
+    for rom in ("low", "low2", "high"):
+        ir = [lab("lb_entry"), db(1), {"k": "data", "d": "dl", "es": [["id", "lb_entry"]]}, lab("lb_next"), {"k": "data", "d": "dw", "es": [["id", "lb_next"]]},
+              {"k": "org", "a": {"low": 0x018000, "low2": 0x818000, "high": 0xC18000}[rom]}, lab("lb_far"), {"k": "data", "d": "dl", "es": [["id", "lb_far"], ["id", "lb_entry"]]}]
+        cases.append({"rom": rom, "files": {}, "defines": {}, "define_forms": [], "sub": rom == "high", "ir": ir, "no_model": True})
     return {"units": [{"cases": [c]} for c in cases], "exhaustive": False}
 
 
@@ -147,6 +152,14 @@ def run_case(case) -> Outcome:
     model = refasm.assemble(ir, rom=rom, files=model_files(files), defines=defines)
     out.evals += 1
     out.sample = {"rom": rom, "defines": defines, "source": src.splitlines()[:16], "model": model.status}
+    if case.get("no_model") and ref.accepted:
+        # a program the reference assembler says nothing about (code before any *=): the front ends are only compared with the
+        # in-memory API, whatever that does
+        import types
+
+        model = types.SimpleNamespace(status="ok", cause="", writes=driver.flatten(ref["blocks"]), blocks=ref["blocks"], labels=list(ref["labels"]),
+                                      labels_outside_loops=list(ref["labels"]), names_under_loops=set())
+        out.labels.append("no-leading-position")
     if model.status == "unspecified":
         out.skip = "unspecified: " + model.cause.split("(")[0].strip()
         return out
